@@ -393,6 +393,13 @@ class EventDispatcher(object):
             #self.state_engine.notify(item, self.message_count, message.redelivered)
             #self.message_count += 1
 
+            """
+            Events published by other clients might not have a message_id.
+            It is the key used to acknowledge the event (and to correlate
+            Task requests), so give those events a unique one.
+            """
+            if message.message_id == None:
+                message.message_id = str(uuid.uuid4())
             message_id = message.message_id
             self.unacknowledged_messages[message_id] = message
             self.state_engine.notify(item, message_id, message.redelivered)
